@@ -1,4 +1,5 @@
 from kanirun import H, FAST
+from mirsym_run import Q
 
 LEVEL = "model_checking"
 EXPLANATION = ("Bounded model checking (Kani/CBMC, SAT) of the real shard readers over fully symbolic serialized "
@@ -9,15 +10,97 @@ ASSUMPTIONS = [
     "DataHash::hmac replaced by a deterministic xor/rotate mixing function (blake3 is C/asm FFI); collision resistance of blake3 keyed hash assumed",
     "Kani models the dev profile (overflow checks and debug assertions on)",
 ]
-OUTSIDE = ["ShardFileManager add/flush/register/consolidate histories (tokio; Kani cannot compile it)", "blocks longer than 4 chunks"]
+OUTSIDE = ["ShardFileManager add/flush/register/consolidate histories (tokio; Kani cannot compile it)", "blocks longer than 4 chunks in the Kani harnesses (the in-memory index obligation is an inductive step: any length)"]
 
 _f = ["mdb_shard::shard_format::MDBShardInfo::chunk_hash_dedup_query_direct", "MDBShardInfo::keyed_chunk_hash",
       "CASChunkSequenceHeader::deserialize", "CASChunkSequenceEntry::deserialize"]
+from common import native_test
+_nat = native_test("c05_direct_native", "C05 violated", "native replay passes: direct-query answers are the longest match inside the xorb for every adversarial layout tried")
 KANI = [
     H("hk_shard", "c05::direct_3x3", "dedup_query_direct truthful on a symbolic 3-chunk CAS block, keyed and unkeyed",
       unwind=6, covers=["a run of >=2", "stopped by a mismatch", "stopped at the xorb end", "miss"],
-      functions=_f, bounds="3 chunk entries x 48 symbolic bytes, query 1..3 hashes", timeout=1200),
+      functions=_f, bounds="3 chunk entries x 48 symbolic bytes, query 1..3 hashes", timeout=1200, native=_nat),
     H("hk_shard", "c05::direct_4x4", "same, 4 chunks / 4 query hashes", unwind=7, tier="thorough",
       covers=["a run of >=2", "stopped by a mismatch", "stopped at the xorb end", "miss"],
-      functions=_f, bounds="4 chunk entries, query 1..4 hashes", timeout=3600, mem_gb=24),
+      functions=_f, bounds="4 chunk entries, query 1..4 hashes", timeout=3600, mem_gb=24, native=_nat),
 ]
+
+# The in-xorb self-reference query (FileDeduper::dedup_query_against_local_data) is a dedup answer too: its truthfulness rests on the
+# lookup of the open xorb being reset at every cut and on the run's byte count being the sum of the referenced chunks - the same solver
+# obligations as under C02 / C14.
+from props import dedup_book as _db, c14 as _c14
+SMT = [_db.Q_CUT, _db.Q_APP] + [q for q in _c14.SMT if q.name == "c14_local_run_bytes"]
+
+
+def build_inmem(fns):
+    """MDBInMemoryShard::chunk_hash_dedup_query (answers for data not yet flushed): the match length is advanced one position at a
+    time, only while both sequences have an element at that position and the stored hash there equals the queried one; the answer is
+    exactly (that length, entries [start, start + length))"""
+    import re
+    from mirsym import mir, symex, smt
+    from mirsym.symex import bvconst, mk_not, mk_eq
+    f = mir.find_fn(fns, r"shard_in_memory::<impl at [^>]*>::chunk_hash_dedup_query$")
+    sc = smt.Script("c05_inmem_lockstep_match")
+    loops = mir.natural_loops(f)
+    heads = [h for h, body in loops.items() if any(re.search(r"DataHash as PartialEq>::(ne|eq)$", f.blocks[b][1].split("(")[0]) for b in body)]
+    if len(heads) != 1 or "query_idx" not in f.debug:
+        sc.query("in-memory dedup query: the match length is computed by a lockstep loop that stops at the first mismatch", ["true"])
+        return [sc]
+    head = heads[0]
+    qi = symex.parse_place(f.debug["query_idx"][0])[1]
+    st = symex.parse_place(f.debug["chunk_index_start"][-1])[1]
+    s = symex.Sym(f, prefix="im.", models=symex.STD_MODELS, max_visits=1)
+    p0 = symex.Path()
+    p0.decls = s.decls
+    q0 = s.load(p0, ("local", qi), "usize").t
+    s0 = s.load(p0, ("local", st), "usize").t
+    nb = nx = 0
+    for i, p in enumerate(s.run(head, max_paths=500)):
+        q1 = s.load(p, ("local", qi), "usize").t
+        cmp_ = [e for e in p.events if re.search(r"DataHash as PartialEq>::(ne|eq)$", e[0])]
+        if p.end == "bound":
+            nb += 1
+            tag = "lockstep step [path %d]" % i
+            sc.query("%s: the match length grows by exactly one" % tag, p.pc + [mk_not(mk_eq(q1, "(bvadd %s %s)" % (q0, bvconst(1, 64))))])
+            ok = len(cmp_) == 1
+            idx_ok = False
+            if ok:
+                ix = [e for e in p.events if re.search(r"CASChunkSequenceEntry> as Index<usize>>::index$", e[0])]
+                idx_ok = len(ix) == 1 and ix[0][4][1].kind == "bv"
+                if idx_ok:
+                    sc.query("%s: the stored hash compared is the one at start + length" % tag, p.pc + [mk_not(mk_eq(ix[0][4][1].t, "(bvadd %s %s)" % (s0, q0)))])
+                a1 = cmp_[0][4][1]
+                q_ok = a1.kind == "ref" and re.search(r"\[%s\]$|\[_\d+\]$" % re.escape(qi), s.key(a1.t)) is not None
+                sc.query("%s: it is compared with the queried hash at the same position" % tag, ["false"] if q_ok else ["true"])
+                res = p.store.get(mir.parse_term(f.blocks[cmp_[0][2]][1])["dest"].strip())
+                is_ne = cmp_[0][0].endswith("::ne")
+                if res is not None and res.kind == "bool":
+                    sc.query("%s: taken only when the two hashes are equal" % tag, p.pc + [res.t if is_ne else mk_not(res.t)])
+            sc.query("%s: advances only after comparing one pair of hashes and indexing the stored entries" % tag, ["false"] if (ok and idx_ok) else ["true"])
+            lens = [v.t for k_, v in p.store.items() if k_.startswith("len(") and v.kind == "bv"]
+            sc.query("witness: %s feasible" % tag, p.pc, expect="sat", kind="witness")
+        elif p.end == "return":
+            nx += 1
+            tag = "loop exit [path %d]" % i
+            sc.query("%s: the match length is not changed on the way out" % tag, p.pc + [mk_not(mk_eq(q1, q0))])
+            r = p.store.get("_0")
+            ok = r is not None and r.kind == "tuple" and r.t == "ctor:Some" and r.items and r.items[0].kind == "tuple" and r.items[0].items[0].kind == "bv"
+            if ok:
+                sc.query("%s: the reported count is the match length" % tag, p.pc + [mk_not(mk_eq(r.items[0].items[0].t, q0))])
+            else:
+                sc.query("%s: the answer is Some((match length, entry))" % tag, ["true"])
+            fe = [e for e in p.events if re.search(r"FileDataSequenceEntry::from_cas_entries", e[0])]
+            if len(fe) == 1 and fe[0][4][2].kind == "bv" and fe[0][4][3].kind == "bv":
+                sc.query("%s: the entry covers chunks [start, start + match length)" % tag,
+                         p.pc + [mk_not("(and %s %s)" % (mk_eq(fe[0][4][2].t, s0), mk_eq(fe[0][4][3].t, "(bvadd %s %s)" % (s0, q0))))])
+            else:
+                sc.query("%s: the entry is built from the matched range" % tag, ["true"])
+    if nb < 1 or nx < 2:
+        sc.query("in-memory dedup query: loop shape (advancing paths %d, exits %d)" % (nb, nx), ["true"])
+    sc.declare(s.decls)
+    return [sc]
+
+
+SMT.append(Q("c05_inmem_lockstep", "in-memory index: match length advanced in lockstep, stops at the first mismatch", "mdb_shard", build_inmem,
+             functions=["mdb_shard::shard_in_memory::MDBInMemoryShard::chunk_hash_dedup_query"], bounds="one iteration from an arbitrary state; both exits",
+             replay=native_test("c05_inmem_native", "C05 violated", "native replay passes: in-memory answers are the longest matching prefix for every query tried")))
